@@ -22,6 +22,7 @@ func c06(r *core.Run) {
 	c06TimeRange(r, p)
 	ruleCodecLayout(r, p)
 	ruleReadPath(r, p)
+	ruleAllocFromStoredLength(r, p)
 	ruleEncoderNew(r, p)
 	ruleAccumulate(r, p, "pkg/types/workload", "Stats.Add", token.ADD_ASSIGN)
 	for _, rel := range []string{"pkg/goDB/encoder/lz4", "pkg/goDB/encoder/zstd", "pkg/goDB/encoder/null"} {
